@@ -61,6 +61,12 @@ pub open spec fn binary_op_text(node: &SyntaxNode, child: &SyntaxNode) -> Seq<ch
     if child.kind_s() == SyntaxKind::In && node.kind_s() == SyntaxKind::Binary && ast::Binary(node).op_s() == BinOp::NotIn { BinOp::NotIn.as_str_s() }
     else { match BinOp::from_kind_s(child.kind_s()) { Some(op) => op.as_str_s(), None => Seq::empty() } }
 }
+/// the nodes `resolve_binary_chain` yields for a binary expression (outermost first); named by its definitional clause
+pub uninterp spec fn binary_chain_s<'a>(n: &'a SyntaxNode) -> Seq<&'a SyntaxNode>;
+/// no operand of the chain is a `not in` (whose two tokens are printed as the single text `not in`: W as stated compares tokens)
+pub open spec fn chain_without_not_in(nd: Seq<&SyntaxNode>) -> bool {
+    forall|k: int| 0 <= k < nd.len() && (#[trigger] nd[k]).kind_s() == SyntaxKind::Binary ==> ast::Binary(nd[k]).op_s() != BinOp::NotIn
+}
 /// `c` is a direct child of `p`
 pub open spec fn is_child_of(c: &SyntaxNode, p: &SyntaxNode) -> bool { exists|j: int| 0 <= j < p.children_s().len() && #[trigger] p.children_s()[j] == c }
 
